@@ -184,15 +184,24 @@ func (w *World) init(over map[string]int) {
 	must(os.MkdirAll(filepath.Join(w.ConfigDir, "Users"), 0755))
 	must(os.MkdirAll(w.FileRoot, 0755))
 	pol := simrt.Policy(w.cfg("policy"))
+	// the step cap means "no progress", not "long run": with function-entry scheduling points a run takes many more steps
+	maxSteps := w.cfg("maxsteps")
+	if maxSteps == 0 {
+		maxSteps = 400000
+	}
+	if w.cfg("fnyield") != 0 {
+		maxSteps *= 15
+	}
 	scfg := simrt.Config{
 		Seed:      c.Seed,
 		Policy:    pol,
-		MaxSteps:  w.cfg("maxsteps"),
+		MaxSteps:  maxSteps,
 		Grace:     time.Duration(w.cfg("grace_s")) * time.Second,
 		TraceFull: w.cfg("trace") != 0,
 	}
 	scfg.HB = w.cfg("hb") != 0
 	scfg.TrackAlloc = w.cfg("hb") != 0
+	scfg.FnYield = w.cfg("fnyield") != 0
 	if w.cfg("fifo_senders") != 0 {
 		scfg.FIFOSubstr = ".outbox/go"
 	}
